@@ -16,10 +16,9 @@ func (w *Worker) concretizeAny(t *Term, limit int, what string) uint64 {
 		return u
 	}
 	d := w.dc
+	site := w.site(skConcr)
 	if d.pos < len(d.prefix) {
-		v := d.prefix[d.pos]
-		d.pos++
-		d.taken = append(d.taken, v)
+		v := w.replayNext(d, site, "concretisation of "+what)
 		w.addPC(w.ctx.Eq(t, w.ctx.BVConst(uint64(v), t.sort.W)))
 		return uint64(v)
 	}
@@ -38,6 +37,10 @@ func (w *Worker) concretizeAny(t *Term, limit int, what string) uint64 {
 		}
 		mv := w.solver.GetValues([]*Term{t})[0]
 		vals = append(vals, mv.U)
+		if mv.U > 1<<31 {
+			w.solver.Pop()
+			w.unsupported("concretisation of %s to a value above 2^31", what)
+		}
 		if len(vals) > limit {
 			w.solver.Pop()
 			panic(pathAbort{abUnwind, fmt.Sprintf("more than %d feasible values for %s", limit, what) + w.where()})
@@ -55,10 +58,10 @@ func (w *Worker) concretizeAny(t *Term, limit int, what string) uint64 {
 		}
 	}
 	for _, v := range vals[1:] {
-		alt := append(append([]int{}, d.taken...), int(v))
+		alt := append(append([]int{}, d.taken...), encDec(site, int(v)))
 		*d.queue = append(*d.queue, alt)
 	}
-	d.taken = append(d.taken, int(vals[0]))
+	d.taken = append(d.taken, encDec(site, int(vals[0])))
 	w.addPC(w.ctx.Eq(t, w.ctx.BVConst(vals[0], t.sort.W)))
 	return vals[0]
 }
@@ -653,9 +656,11 @@ func (w *Worker) makeSliceOf(et types.Type, ln, cp *Term) SliceV {
 			o := w.newObj(buf, types.NewArray(et, int64(n)), "make-smt")
 			return SliceV{Arr: PtrV{Obj: o}, Off: w.k64(0), Len: ln, Cap: w.k64(n)}
 		}
-		w.unsupported("make of %d elements of %s (limit %d)", n, et, w.prog.maxAlloc)
+		if n > 1<<21 {
+			w.unsupported("make of %d elements of %s (limit %d)", n, et, 1<<21)
+		}
 	}
-	arr := &ArrayV{E: make([]Value, n)}
+	arr := &ArrayV{E: make([]Value, n), epoch: w.epoch}
 	if n > 0 {
 		z := w.zero(et)
 		for i := range arr.E {
@@ -1101,6 +1106,21 @@ func (w *Worker) copyN(dst, src SliceV, n *Term) {
 		vals := make([]Value, nc)
 		for i := range vals {
 			vals[i] = w.sliceElem(src, w.k64(i))
+		}
+		// concrete destination range: one array update instead of nc
+		if off, ok := dst.Off.ConstU(); ok && nc > 1 {
+			if arr, ok := w.getPath(dst.Arr.Obj.val, dst.Arr.Path).(*ArrayV); ok && int(off)+int(nc) <= len(arr.E) {
+				if arr.epoch != 0 && arr.epoch == w.epoch && w.noInPlace == 0 {
+					copy(arr.E[off:], vals)
+					return
+				}
+				na := &ArrayV{E: make([]Value, len(arr.E))}
+				copy(na.E, arr.E)
+				copy(na.E[off:], vals)
+				w.setObj(dst.Arr.Obj, w.setPath(dst.Arr.Obj.val, dst.Arr.Path, na))
+				na.epoch = w.epoch
+				return
+			}
 		}
 		for i := range vals {
 			w.store(w.sliceElemPtr(dst, w.k64(i)), vals[i])
